@@ -112,6 +112,13 @@ func c15Executor(b *barrier, mw string) *kmipserver.BatchExecutor {
 				return nil, err
 			}
 			obs = id
+		case "readexplicit":
+			// an item that names its object explicitly: the accessor must hand that identifier back and leave the placeholder alone
+			want := "explicit-" + val
+			id, err := kmipserver.GetIdOrPlaceholder(ctx, want)
+			if err != nil || id != want {
+				return nil, fmt.Errorf("GetIdOrPlaceholder(%q) = %q, %v", want, id, err)
+			}
 		case "clear":
 			kmipserver.ClearIdPlaceholder(ctx)
 		case "fail":
@@ -171,7 +178,7 @@ func c15Model(conn, reqIdx int, actions []string) (accept [][]string) {
 		case "set":
 			accept = append(accept, obs)
 			ph, maybe = val, false
-		case "read", "sync":
+		case "read", "sync", "readexplicit":
 			accept = append(accept, obs)
 		case "readorid":
 			if ph == "" && !maybe {
@@ -391,7 +398,7 @@ func c15Run(t *testing.T, c c15Case) (sig string, err error) {
 
 func TestC15Placeholder(t *testing.T) {
 	const name = "TestC15Placeholder"
-	rec := evid.New("C15", name, "1..4 connections (through a real Server over an in-memory listener in a synctest bubble) or 2..6 goroutines calling HandleRequest directly, each issuing 0..2 requests that are rejected at message level (unsupported version, batch count mismatch, Undo) followed by 1..4 requests of 1..6 placeholder actions (set / read / read-or-id / clear / fail / set-then-fail / fail on the first run only, each item optionally carrying a non-critical message extension); the executor has no batch item middleware, a pass-through one, one that turns a handler error into a successful item, or one that runs a failed item once more; "+
+	rec := evid.New("C15", name, "1..4 connections (through a real Server over an in-memory listener in a synctest bubble) or 2..6 goroutines calling HandleRequest directly, each issuing 0..2 requests that are rejected at message level (unsupported version, batch count mismatch, Undo) followed by 1..4 requests of 1..6 placeholder actions (set / read / read-or-id / read with an explicit identifier / clear / fail / set-then-fail / fail on the first run only, each item optionally carrying a non-critical message extension); the executor has no batch item middleware, a pass-through one, one that turns a handler error into a successful item, or one that runs a failed item once more; "+
 		"rendezvous items inside the first request of every connection force the requests to overlap in time at chosen items; values are unique per request; oracle: per-request placeholder model (empty at start, set visible to later items, never a foreign value); "+
 		"non-trivial = set followed by read in a request that overlaps another one, or a second request on a connection after a set; distinct by case").Attach(t)
 	if rp := evid.LoadReplay(name); rp != nil {
@@ -404,7 +411,7 @@ func TestC15Placeholder(t *testing.T) {
 		}
 		return
 	}
-	actions := []string{"set", "set", "read", "read", "readorid", "clear", "fail", "setfail", "failonce"}
+	actions := []string{"set", "set", "read", "read", "readorid", "readexplicit", "clear", "fail", "setfail", "failonce"}
 	rapid.Check(t, func(rt *rapid.T) {
 		c := c15Case{Direct: rapid.Bool().Draw(rt, "direct"), ItemMiddleware: rapid.SampledFrom([]string{"", "", "pass", "absorb", "retry"}).Draw(rt, "item-middleware")}
 		nconn := rapid.IntRange(1, 4).Draw(rt, "connections")
